@@ -9,12 +9,18 @@ import (
 //
 //	bin <hex>   decodeBinHeader accepts?          -> ok | err
 //	ct <hex>    grpcutil.ContentSubtype's boolean -> ok | err
+//	to <hex>    decodeTimeout accepts?            -> ok | err
 func init() {
 	register("binhdr", func() Handler {
 		return func(f []string) string {
 			switch f[0] {
 			case "bin":
 				if _, err := transport.VerifDecodeBinHeader(string(unhex(f[1]))); err != nil {
+					return "err"
+				}
+				return "ok"
+			case "to":
+				if _, err := transport.VerifDecodeTimeout(string(unhex(f[1]))); err != nil {
 					return "err"
 				}
 				return "ok"
